@@ -282,6 +282,29 @@ fn fsck_alpha(r: &mut Runner) -> Option<fsck::Alpha> {
     crate::fsckrun::alpha_of(&r.fs,&r.label,&mut r.disk)
 }
 
+/// option n: the container carries notes of several lines (CR LF and LF breaks) in every free-text metadata field it has, put through
+/// the metadata interface before the history starts; a field that refuses the text is left alone
+fn annotate(img: &mut Box<dyn a2kit::img::DiskImage>) {
+    let typ = img.what_am_i().to_string();
+    let meta = match json::parse(&img.get_metadata(None)) { Ok(m) => m, Err(_) => return };
+    fn walk(node: &json::JsonValue,path: &mut Vec<String>,out: &mut Vec<Vec<String>>) {
+        for (k,v) in node.entries() { path.push(k.to_string()); if v.is_object() { walk(v,path,out); } else { out.push(path.clone()); } path.pop(); }
+    }
+    let mut leaves = Vec::new();
+    walk(&meta,&mut Vec::new(),&mut leaves);
+    if typ=="woz1" || typ=="woz2" {
+        for k in ["title","notes"] { leaves.push(vec![typ.clone(),"meta".to_string(),k.to_string()]); }
+    }
+    let free_text = ["comment","notes","creator_info","title"];
+    for leaf in &leaves {
+        let last = leaf.last().unwrap().as_str();
+        let key = if last=="_raw" && leaf.len()>1 { leaf[leaf.len()-2].as_str() } else { last };
+        if free_text.contains(&key) && last!="_pretty" {
+            let _ = img.put_metadata(leaf,&json::JsonValue::String("side A of two\r\nmade for the reload check\r\nlast line\nafter a bare LF ".to_string()));
+        }
+    }
+}
+
 /// fsh id fs label opts ops   (ops separated by ';', fields by ':')
 pub fn run(toks: &[&str]) -> String {
     let fs = toks[2]; let label = toks[3]; let opts = toks[4];
@@ -291,6 +314,7 @@ pub fn run(toks: &[&str]) -> String {
     r.unit = match r.disk.new_fimg(None,false,if fs.starts_with("cpm") {"A.B"} else {"A"}) { Ok(f) => f.chunk_len, Err(_) => 512 };
     let do_fsck = opts.contains('k');
     let do_reload = opts.contains('r');
+    if opts.contains('n') { annotate(r.disk.get_img()); }
     // focus mode "@Cxx": a failure that belongs to other properties only is noted and the history goes on, so that the later
     // symptom of property Cxx (say, two files owning one block after a wrong free count) is reached
     let focus: Option<String> = opts.find('@').map(|i| opts[i+1..i+4].to_string());
